@@ -297,12 +297,18 @@ class ImplWorld:
             if p is None:
                 return {"committed": False, "calls": [], "decoded": []}
             amt = int(p["coin"]["amount"])
+            # as in MW/Chain/World.lean (`setPktState`): the state is written to every packet carrying that sequence
+            # number -- they are one packet unless the environment re-used numbers (`reseq`, outside the honest
+            # environment; the model does not key packets by (channel, sequence))
+            twins = [q for q in l.pkts if q["seq"] == p["seq"]]
             if k == "ack" and ev["success"]:
-                p["state"] = "delivered"
+                for q in twins:
+                    q["state"] = "delivered"
                 key = (p["receiver"], p["coin"]["denom"])
                 l.remote[key] = l.remote.get(key, 0) + amt
             else:
-                p["state"] = "refunded"
+                for q in twins:
+                    q["state"] = "refunded"
                 l.add(p["sender"], p["coin"]["denom"], amt)
             if k == "ack":
                 msg = {"ibc_lifecycle_complete": {"ibc_ack": {"channel": p["channel"], "sequence": p["seq"], "ack": "", "success": ev["success"]}}}
@@ -320,6 +326,11 @@ class ImplWorld:
             return {"committed": ok, "calls": [], "decoded": []}
         if k == "faucet":
             l.add(ev["to"], ev["coin"]["denom"], int(ev["coin"]["amount"]))
+            return {"committed": True, "calls": [], "decoded": []}
+        if k == "reseq":
+            # packets are numbered per channel: after a move to another channel the numbering continues wherever that
+            # channel's counter stands
+            l.next_seq = int(ev["next"])
             return {"committed": True, "calls": [], "decoded": []}
         raise RuntimeError("unknown event " + k)
 
